@@ -69,7 +69,8 @@ def case_strategy(profile):
     jitter = st.lists(st.sampled_from([0.0, 0.0, simnet.EPS, 0.0005, 0.003]), min_size=1, max_size=5)
     extra = profile.get("cfg_extra")
     if profile.get("cfg_extra_fn") == "c09":
-        extra = {"idle_timeout": st.sampled_from([60.0, 60.0, 4.0, 2.0])}
+        # the two endpoints may advertise different idle timeouts: the smaller one is in force once both are known
+        extra = {"idle_timeout": st.sampled_from([60.0, 60.0, 4.0, 2.0]), "s_idle_timeout": st.sampled_from([None, None, 2.0, 5.0, 60.0]), "c_idle_timeout": st.sampled_from([None, None, None, 3.0, 60.0])}
     elif profile.get("cfg_extra_fn") == "c13":
         extra = {"leaf": st.sampled_from(["ed25519", "rsa", "chain2", "chain3", "chain3"]), "retry": st.sampled_from([False, False, True])}
     if profile.get("c_keylog"):
